@@ -40,6 +40,18 @@ func topBlockAt(f *hcl.File, off int) []int {
 	return []int{-1, -1}
 }
 
+func isIdent(s string) bool {
+	if s == "" {
+		return false
+	}
+	for _, r := range s {
+		if !(r == '_' || r == '-' || r >= '0' && r <= '9' || r >= 'a' && r <= 'z' || r >= 'A' && r <= 'Z' || r > 127) {
+			return false
+		}
+	}
+	return true
+}
+
 func rng3(r hcl.Range) []interface{} { return []interface{}{r.Filename, r.Start.Byte, r.End.Byte} }
 
 func lookupWorld(tw *traceWriter, wt *watch, w *World) int {
@@ -51,10 +63,10 @@ func lookupWorld(tw *traceWriter, wt *watch, w *World) int {
 			env.Recollect(wt, pk)
 		}
 	}
-	return lookupEnv(tw, wt, env, keys)
+	return lookupEnv(tw, wt, env, keys, true)
 }
 
-func lookupEnv(tw *traceWriter, wt *watch, env *Env, keys []string) int {
+func lookupEnv(tw *traceWriter, wt *watch, env *Env, keys []string, names bool) int {
 	n := 0
 	for _, pk := range keys {
 		if env.R.Failing[pk] {
@@ -92,6 +104,15 @@ func lookupEnv(tw *traceWriter, wt *watch, env *Env, keys []string) int {
 					okinds = append(okinds, []string{"direct", env.R.keyOf(oo.TargetPath)})
 				}
 			}
+			// the attribute name the written address ends with ("" if it ends with an index or is a bare root)
+			olast := ""
+			if lo, ok := o.(reference.LocalOrigin); ok && len(lo.Addr) > 1 && names {
+				root := lo.Addr[0].String()
+				if as, ok := lo.Addr[len(lo.Addr)-1].(lang.AttrStep); ok && root != "count" && root != "each" {
+					// (count.index / each.key are declared by the count / for_each attribute)
+					olast = as.Name
+				}
+			}
 			offs := []int{or.Start.Byte, (or.Start.Byte + or.End.Byte) / 2}
 			if or.End.Byte-1 > or.Start.Byte {
 				offs = append(offs, or.End.Byte-1)
@@ -100,7 +121,7 @@ func lookupEnv(tw *traceWriter, wt *watch, env *Env, keys []string) int {
 				pos := PosAt(f.Bytes, off)
 				g := env.Run(wt, Q{Kind: "gotodef", Path: pk, File: or.Filename, Pos: pos})
 				ev := Event{"ev": "Lookup", "p": pk, "orange": rng3(or), "at": off, "okind": kind, "local": local, "okinds": okinds, "status": g.Status,
-					"oblock": topBlockAt(f, or.Start.Byte), "targets": []Event{}}
+					"oblock": topBlockAt(f, or.Start.Byte), "targets": []Event{}, "olast": olast}
 				ts := []Event{}
 				if rts, ok := g.Value.(decoder.ReferenceTargets); ok {
 					for _, t := range rts {
@@ -111,7 +132,16 @@ func lookupEnv(tw *traceWriter, wt *watch, env *Env, keys []string) int {
 								te["tblock"] = topBlockAt(tf, t.Range.Start.Byte)
 							}
 						}
+						te["deftext"] = ""
 						if t.DefRangePtr != nil {
+							if tc, ok := env.R.Ctxs[tk]; ok {
+								if tf := tc.Files[t.DefRangePtr.Filename]; tf != nil && t.DefRangePtr.End.Byte <= len(tf.Bytes) && t.DefRangePtr.Start.Byte <= t.DefRangePtr.End.Byte {
+									txt := strings.Trim(string(tf.Bytes[t.DefRangePtr.Start.Byte:t.DefRangePtr.End.Byte]), "\"")
+									if isIdent(txt) {
+										te["deftext"] = txt
+									}
+								}
+							}
 							te["def"] = rng3(*t.DefRangePtr)
 							fr := env.Run(wt, Q{Kind: "findrefs", Path: tk, File: t.DefRangePtr.Filename, Pos: t.DefRangePtr.Start})
 							refs := [][]interface{}{}
@@ -230,7 +260,7 @@ func lookupCases(tw *traceWriter, wt *watch, path string) int {
 			}
 			pc.ReferenceOrigins = append(pc.ReferenceOrigins, reference.LocalOrigin{Addr: refAddr(o.Addr), Range: refRange(src, o.Rng), Constraints: oc})
 		}
-		n += lookupEnv(tw, wt, env, []string{"p1"})
+		n += lookupEnv(tw, wt, env, []string{"p1"}, false)
 	}
 	return n
 }
